@@ -368,23 +368,23 @@ def single_task(args):
                            "before_link": link_at is None or i < link_at, "is_link": i == link_at})
         out["n_points"] = len(points)
         # protocol operations first, interpreter-internal calls on the temporary file afterwards
+        # most telling fault classes first (a run that is short of time still covers them)
+        classes = [("write", "eio"), ("link", "kill"), ("unlink", "kill"), ("replace", "kill"), ("fetch", "eio"),
+                   ("close", "eio"), ("link", "eio"), ("replace", "eio"), ("unlink", "eio"), ("chmod", "eio"),
+                   ("close", "kill"), ("chmod", "kill"), ("write", "kill"), ("create", "eio"), ("statDest", "eio")]
         order = []
+        for op, what in classes:
+            cand = [p for p in points if p["op"] == op]
+            if op == "fetch" and len(cand) > 3:
+                cand = [cand[0], cand[len(cand) // 2], cand[-1]] + [c for i, c in enumerate(cand) if i not in (0, len(cand) // 2, len(cand) - 1)]
+            order += [(p, what) for p in cand]
+        seen = {(p["i"], w) for p, w in order}
         for p in points:
             if p["proto"]:
-                order += [(p, "eio"), (p, "kill")]
+                order += [(p, w) for w in ("eio", "kill") if (p["i"], w) not in seen]
         order += [(p, "kill") for p in points if not p["proto"]] + [(p, "eio") for p in points if not p["proto"]]
         if limits.get("max_points") is not None:
-            r = random.Random("pts-%s" % json.dumps(spec, sort_keys=True))
-            keep = order[:limits["max_points"]] if len(order) <= limits["max_points"] else \
-                [order[j] for j in sorted(r.sample(range(len(order)), limits["max_points"]))]
-            order = keep
-        if floor:
-            # the mandatory part of a run: spread over the whole protocol instead of taking a prefix
-            nproto = len([1 for p in points if p["proto"]]) * 2
-            head = order[:nproto]
-            step = max(1, len(head) // floor)
-            picked = head[::step][:floor]
-            order = picked + [x for x in order if x not in picked]
+            order = order[:limits["max_points"]]
         for n, (p, what) in enumerate(order):
             if time.time() > deadline and n >= floor:
                 break
@@ -1020,7 +1020,7 @@ def plan_sched(ctx):
     seed = ctx.seed * 1000 + 500
     sz = lambda: r.choice([r.randrange(0, 300), r.randrange(9000, 30000)])
     # directed: A stops after j protocol operations, B runs completely (wins the race), A continues
-    for j in range(1, 13):
+    for j in (5, 8, 3, 9, 1, 2, 4, 6, 7, 10, 11, 12):      # the first two always run: in the middle of the data, just before link()
         seed += 1
         specs.append({"mode": "sched", "seed": seed, "pre": "fresh",
                       "procs": [{"kind": "package", "size": 12000, "fileMode": 0o640}, {"kind": "package", "size": 200, "fileMode": None}],
@@ -1110,7 +1110,7 @@ def oracle(ctx):
         T.available_syscalls()
         # ---- (1) single process scenarios: fault free, EIO everywhere, SIGKILL everywhere
         specs = plan_single(ctx)
-        items = [(sp, os.path.join(ctx.tmp, "s%04d" % i), at(0.55), {"max_points": None, "floor": 12 if i < 3 else 0})
+        items = [(sp, os.path.join(ctx.tmp, "s%04d" % i), at(0.55), {"max_points": None, "floor": 14 if i < 3 else 0})
                  for i, sp in enumerate(specs)]
         outs = ctx.parallel(single_task, items)
         for out in outs:
